@@ -84,6 +84,15 @@ func init() {
 		return fmt.Sprintf("%d %s", is, resInfo(file.JWTData(file.Info{}, data)))
 	}
 	reemit["jwt"] = func(a []string) { emit("jwt", jwtArgs(unhx(a[0]))...) }
+	// jwtfile <data> H … P …: the same text as a FILE through file.Inspect (dispatch included): is it reported as a JWT?
+	ops["jwtfile"] = func(a []string) string {
+		i, err := inspectAt("t.jwt", unhx(a[0]))
+		if err != nil {
+			return "err"
+		}
+		return "desc " + hxs(i.Description)
+	}
+	reemit["jwtfile"] = func(a []string) { emit("jwtfile", jwtArgs(unhx(a[0]))...) }
 }
 
 func genC18(tier string, r *rng) {
@@ -199,6 +208,26 @@ func genC18(tier string, r *rng) {
 		h + "\n." + p + "." + s, h + "." + enc([]byte("{\"sub\":\"x\"}x"), 1) + "." + s} {
 		emitJ(t)
 	}
+	// every total length from 100 to 140 bytes (the text of a token starts "ey": read as DER that is an [APPLICATION 5]
+	// element of length 121, so a 123-byte token is also exactly one TLV)
+	for filler := 0; filler <= 14; filler++ {
+		for _, sigLen := range []int{16, 20, 32} {
+			for which := 0; which < 4; which++ {
+				tok := enc([]byte(`{"alg":"HS256","typ":"JWT"}`), which) + "." + enc([]byte(`{"sub":"`+strings.Repeat("x", filler)+`","iat":1516239022}`), which) + "." + enc(r.bytes(sigLen), which)
+				if len(tok) >= 118 && len(tok) <= 128 {
+					emitJ(tok)
+					emit("jwtfile", jwtArgs([]byte(tok))...)
+				}
+			}
+		}
+	}
+	// members of the payload named like header parameters (private claims such as Keycloak's "typ":"Bearer"), claims
+	// replicated in the header (RFC 7519 §5.3), the same name in both
+	for _, hp := range []string{"typ", "alg", "kid", "jku", "x5t"} {
+		emitJ(enc([]byte(`{"alg":"HS256"}`), 1) + "." + enc([]byte(`{"sub":"bob","`+hp+`":"Bearer"}`), 1) + "." + enc([]byte("sig"), 1))
+		emitJ(enc([]byte(`{"typ":"JWT"}`), 1) + "." + enc([]byte(`{"`+hp+`":"none"}`), 1) + "." + enc([]byte("sig"), 1))
+	}
+	emitJ(enc([]byte(`{"alg":"HS256","iss":"replicated","exp":1700000000}`), 1) + "." + enc([]byte(`{"iss":"payload","sub":"x"}`), 1) + "." + enc([]byte("sig"), 1))
 	// misplaced padding: every segment, in padded and unpadded form, with 0..4 '=' appended or one removed
 	for _, pad := range []int{0, 1} {
 		segs := []string{enc([]byte(`{"alg":"HS256"}`), pad), enc([]byte(`{"sub":"xy"}`), pad), enc([]byte("sig!"), pad), enc([]byte("s"), pad)}
